@@ -451,6 +451,7 @@ func newScript(u *Universe) *Script {
 		"(assert (= (gstr.len str_empty) 0))",
 		"(assert (forall ((s Str)) (! (>= (gstr.len s) 0) :pattern ((gstr.len s)))))",
 		"(assert (forall ((a Str) (b Str)) (! (= (gstr.len (gstr.cat a b)) (+ (gstr.len a) (gstr.len b))) :pattern ((gstr.cat a b)))))",
+		"(assert (forall ((a Str) (b Str) (i Int)) (! (= (gstr.at (gstr.cat a b) i) (ite (< i (gstr.len a)) (gstr.at a i) (gstr.at b (- i (gstr.len a))))) :pattern ((gstr.at (gstr.cat a b) i)))))",
 	)
 	return s
 }
